@@ -466,6 +466,31 @@ def fit_cases(tier):
                       "epochs": epochs, "steps_per_epoch": spe,
                       "seed": 100 + k})
           k += 1
+  # training continued with a second fit() and the same scheduler; the first
+  # fit ends off an update boundary (update_freq 2-3)
+  two = [
+      ("step", {"start": 0, "finish": 2, "update_freq": 3,
+                "initial_step_or_epoch": 0, "exponent": 3.0, "use_ste": True},
+       [1, 1], 4, True, 0),      # positions 0..3 | 4..7: 1.0 must be held
+      ("step", {"start": 0, "finish": 9, "update_freq": 3,
+                "initial_step_or_epoch": 0, "exponent": 2.0, "use_ste": False},
+       [1, 1], 4, False, 1),     # a value strictly inside (0,1) must be held
+      ("epoch", {"start": 0, "finish": 2, "update_freq": 2,
+                 "initial_step_or_epoch": 0, "exponent": 3.0, "use_ste": True},
+       [3, 2], 2, True, 1),      # epochs 0..2 | 3..4
+      ("epoch", {"start": 1, "finish": 6, "update_freq": 2,
+                 "initial_step_or_epoch": 1, "exponent": 1.0, "use_ste": True},
+       [2, 3], 1, False, 0),
+  ]
+  if tier != "quick":
+    two = two + [(ft, sc, fits, spe, not lazy, (mi + 1) % len(ms))
+                 for ft, sc, fits, spe, lazy, mi in two]
+  for ft, sched, fits, spe, lazy, mi in two:
+    out.append({"part": "D", "layers": ms[mi],
+                "sched": dict(sched, freq_type=ft), "lazy": lazy,
+                "epochs": sum(fits), "fits": fits, "steps_per_epoch": spe,
+                "seed": 100 + k})
+    k += 1
   return out
 
 
